@@ -155,7 +155,13 @@ func (f *jwtFinalizer) Execute(ctx heimdall.Context, sub *subject.Subject) error
 		}
 	}
 
-	ctx.AddHeaderForUpstream(f.headerName, fmt.Sprintf("%s %s", f.headerScheme, jwtToken))
+	// if no scheme is configured, nothing is prepended
+	headerValue := jwtToken
+	if len(f.headerScheme) != 0 {
+		headerValue = fmt.Sprintf("%s %s", f.headerScheme, jwtToken)
+	}
+
+	ctx.AddHeaderForUpstream(f.headerName, headerValue)
 
 	return nil
 }
